@@ -10,6 +10,12 @@ def const_bits(sch, lf):
     t = lf.typ
     size = SZ[t.prim]
     mask = (1 << (8 * size)) - 1
+    tref = getattr(t, "value_ref", None)
+    if t.kind == "type" and (tref or (m.value_ref and not t.const)):
+        en, val = (tref or m.value_ref).split(".")
+        et = sch.resolve(en)
+        txt = dict(et.values)[val]
+        return (ord(txt) if et.prim == "char" else int(txt)) & mask
     if t.kind == "enum":
         ref = m.value_ref
         en, val = ref.split(".")
